@@ -111,6 +111,9 @@ type VH struct {
 	Buf  int    `json:"buf,omitempty"`
 	Echo bool   `json:"echo,omitempty"`
 	Fail bool   `json:"fail,omitempty"` // kind "udp": return an error after the datagrams were read
+	Then bool   `json:"then,omitempty"` // kind "udp": call the next handler after the datagrams were read (non-terminal)
+
+	next layer4.Handler
 }
 
 func (*VH) CaddyModule() caddy.ModuleInfo {
@@ -219,35 +222,46 @@ func (h *VH) handleUDP(cx *layer4.Connection, rec *Recorder) error {
 	}
 	buf := make([]byte, bufSize)
 	whole := 0
+	// what was read and not yet attributed to a datagram: bytes prefetched for matching arrive as ONE run in which
+	// consecutive datagrams follow each other, so the handler cuts the byte stream at the datagram headers
+	var pending []byte
+	more := func() bool {
+		n, err := cx.Read(buf)
+		if n > 0 {
+			pending = append(pending, buf[:n]...)
+		}
+		return err == nil && n > 0
+	}
 	for whole < h.N {
 		if g := UDPGate; g != nil {
 			g("read", a, client)
 		}
-		// first piece of a datagram
-		n, err := cx.Read(buf)
-		if err != nil || n == 0 {
+		if len(pending) == 0 && !more() {
 			break
 		}
-		c, seq, size, ok := identifyDg(buf[:n])
+		for len(pending) < 12 && more() {
+		}
+		c, seq, size, ok := ParseDgHeader(pending)
 		if !ok {
-			rec.Add(Ev{"e": "Dlv", "a": a, "c": "?", "seq": -1, "off": 0, "n": n})
+			rec.Add(Ev{"e": "Dlv", "a": a, "c": "?", "seq": -1, "off": 0, "n": len(pending)})
+			pending = nil
 			whole++
 			continue
 		}
-		off := n
-		intact := true
-		for off < size {
-			n, err = cx.Read(buf)
-			if err != nil || n == 0 {
-				break
-			}
-			for i := 0; i < n; i++ {
-				if off+i >= size || buf[i] != DgByte(c, seq, off+i) {
-					intact = false
-				}
-			}
-			off += n
+		for len(pending) < size && more() {
 		}
+		got := size
+		if len(pending) < size {
+			got = len(pending)
+		}
+		intact := true
+		for i := 12; i < got; i++ {
+			if pending[i] != DgByte(c, seq, i) {
+				intact = false
+			}
+		}
+		pending = pending[got:]
+		off := got
 		// one event per datagram: how many bytes of it arrived, and whether they were its own
 		if intact {
 			rec.Add(Ev{"e": "Dlv", "a": a, "c": ClientName(c), "seq": seq, "off": 0, "n": off})
@@ -265,6 +279,9 @@ func (h *VH) handleUDP(cx *layer4.Connection, rec *Recorder) error {
 		g("return", a, client)
 	}
 	rec.Add(Ev{"e": "End", "a": a})
+	if h.Then && h.next != nil {
+		return h.next.Handle(cx)
+	}
 	if h.Fail {
 		return errors.New("verif_h: handler failed (as a proxy does when no upstream is available)")
 	}
@@ -314,7 +331,9 @@ func (h *VH) Handle(cx *layer4.Connection, next layer4.Handler) error {
 	}
 	switch h.K {
 	case "udp":
-		return h.handleUDP(cx, rec)
+		hh := *h
+		hh.next = next
+		return hh.handleUDP(cx, rec)
 	case "mark":
 		rec.Add(Ev{"e": "Handle", "l": h.L, "r": h.R, "vis": len(cx.MatchingBytes()), "pos": rec.Expect})
 		rec.InRoute = true
